@@ -1595,3 +1595,97 @@ def gen_scanner_fields():
     out.append("")
     out.append("end XV.Gen.ScannerFields")
     return "\n".join(out) + "\n"
+# ---- C03 (builder) ----
+
+
+# ------------------------------------------------------------------ C03: normalisation constants
+def _body_of_c03(text, qual, rel):
+    """body of the function whose definition header contains `qual(` (arguments may contain parentheses)"""
+    m = re.search(r"\b%s\s*\(" % re.escape(qual), text)
+    while m:
+        i = m.end(); depth = 1
+        while depth and i < len(text):
+            if text[i] == "(": depth += 1
+            elif text[i] == ")": depth -= 1
+            i += 1
+        mm = re.match(r"\s*(?:const\s*)?\{", text[i:])
+        if mm:
+            j = i + mm.end(); k = j; depth = 1
+            while depth and k < len(text):
+                if text[k] == "{": depth += 1
+                elif text[k] == "}": depth -= 1
+                k += 1
+            return text[j:k - 1]
+        m = re.search(r"\b%s\s*\(" % re.escape(qual), text[i:])
+        if m:
+            m = re.compile(r"\b%s\s*\(" % re.escape(qual)).search(text, i)
+    raise TranslateError("function %s not found in %s" % (qual, rel))
+
+@translate.register("NormConsts")
+def gen_norm_consts():
+    out = HEADER + "namespace XV.Gen.NormConsts\n\n"
+    # attribute type enum
+    rel = "framework/XMLAttDef.hpp"
+    t = strip_c_comments(src(rel))
+    m = re.search(r"enum\s+AttTypes\s*\{(.*?)\}\s*;", t, flags=re.S)
+    if not m:
+        raise TranslateError("enum AttTypes not found in " + rel)
+    vals, nxt = {}, 0
+    for item in m.group(1).split(","):
+        item = item.strip()
+        if not item:
+            continue
+        mm = re.fullmatch(r"(\w+)(?:\s*=\s*(-?\w+))?", item)
+        if not mm:
+            raise TranslateError("%s: cannot read enumerator %r" % (rel, item))
+        v = int(mm.group(2), 0) if mm.group(2) else nxt
+        vals[mm.group(1)] = v
+        nxt = v + 1
+    order = ["CData", "ID", "IDRef", "IDRefs", "Entity", "Entities", "NmToken", "NmTokens", "Notation", "Enumeration"]
+    for nm in order:
+        if nm not in vals or vals[nm] < 0:
+            raise TranslateError("%s: enumerator %s missing" % (rel, nm))
+        out += "def att%s : Nat := %d\n" % (nm, vals[nm])
+    out += "\n"
+    # characters
+    syms = unidefs()
+    for nm in ("chCR", "chLF", "chNEL", "chLineSeparator", "chSpace", "chHTab"):
+        if nm not in syms:
+            raise TranslateError("util/XMLUniDefs.hpp: %s not found" % nm)
+        out += "def %s : Nat := %d\n" % (nm, syms[nm])
+    out += "\n"
+    # escape marker and the shape of the normalisers
+    rel = "internal/IGXMLScanner2.cpp"
+    s = strip_c_comments(src(rel))
+    basic = _body_of_c03(s, "IGXMLScanner::basicAttrValueScan", rel)
+    mk = set(re.findall(r"if\s*\(\s*escaped\s*\)\s*toFill\.append\s*\(\s*(0x[0-9A-Fa-f]+)\s*\)", basic))
+    if len(mk) != 1:
+        raise TranslateError("%s: basicAttrValueScan no longer appends one escape marker when `escaped`: %s" % (rel, sorted(mk)))
+    marker = int(mk.pop(), 16)
+    nav = _body_of_c03(s, "IGXMLScanner::normalizeAttValue", rel)
+    nrv = _body_of_c03(s, "IGXMLScanner::normalizeAttRawValue", rel)
+    if not re.search(r"case\s+0x%X\s*:" % marker, nav, flags=re.I) or not re.search(r"nextCh\s*==\s*0x%X" % marker, nav, flags=re.I):
+        raise TranslateError("%s: normalizeAttValue no longer tests the escape marker 0x%X in both branches" % (rel, marker))
+    if not re.search(r"nextCh\s*==\s*0x%X" % marker, nrv, flags=re.I):
+        raise TranslateError("%s: normalizeAttRawValue no longer tests the escape marker 0x%X" % (rel, marker))
+    if not re.search(r"type\s*==\s*XMLAttDef::CData\s*\|\|\s*type\s*>\s*XMLAttDef::Enumeration", nav):
+        raise TranslateError("%s: normalizeAttValue no longer selects the CDATA branch by `type == CData || type > Enumeration`" % rel)
+    if not re.search(r"case\s+0x09\s*:\s*case\s+0x0A\s*:\s*case\s+0x0D\s*:", nav, flags=re.I):
+        raise TranslateError("%s: normalizeAttValue CDATA branch no longer maps 0x09/0x0A/0x0D to a space" % rel)
+    out += "def escapeMarker : Nat := %d\n\n" % marker
+    # reader buffer
+    rel = "internal/XMLReader.hpp"
+    r = strip_c_comments(src(rel))
+    m = re.search(r"kCharBufSize\s*=\s*(\d+)\s*\*\s*(\d+)", r)
+    if not m:
+        raise TranslateError("%s: kCharBufSize not found" % rel)
+    out += "def kCharBufSize : Nat := %d\n" % (int(m.group(1)) * int(m.group(2)))
+    # handleEOL still has its three cases
+    rel = "internal/XMLReader.cpp"
+    h = _body_of_c03(strip_c_comments(src(rel)), "XMLReader::handleEOL", rel)
+    for pat, what in ((r"case\s+chCR\s*:", "case chCR"), (r"case\s+chLF\s*:", "case chLF"), (r"case\s+chNEL\s*:\s*case\s+chLineSeparator\s*:", "case chNEL/chLineSeparator"),
+                      (r"fCharBuf\s*\[\s*fCharIndex\s*\]\s*==\s*chLF", "look-ahead for LF"), (r"refreshCharBuffer\s*\(\s*\)", "refill before the look-ahead")):
+        if not re.search(pat, h):
+            raise TranslateError("%s: handleEOL: %s not found" % (rel, what))
+    out += "\nend XV.Gen.NormConsts\n"
+    return out
